@@ -32,6 +32,7 @@ type World struct {
 	lemmas    []*Lemma
 	ifaceAlias map[string]string // interface method -> contract name
 	callbackAlias map[string]string // callback key -> callback key whose contract it shares
+	deadEdges   bool
 	onlyProp    string // check command: solve only obligations that count for this property
 	streamAlias []streamAliasDecl // reader types that are windows onto another reader object
 	purePkgs  map[string]bool
